@@ -776,13 +776,24 @@ func TestC11_SweepContention(t *testing.T) {
 		capacity := rapid.SampledFrom([]int{300, 600, 1200}).Draw(t, "cap")
 		ttl := time.Duration(rapid.IntRange(300, 1000).Draw(t, "ttl-us")) * time.Microsecond
 		mode := rapid.SampledFrom([]string{"clear", "delete-reput", "get-reput", "mixed"}).Draw(t, "mode")
+		rounds, longLife := 6, false
+		if rapid.IntRange(0, 2).Draw(t, "long-lifetime") == 0 {
+			// entries live 80 ms: whatever is stored again while the sweep runs is far from expiring when
+			// the round ends, so it must still be there - a sweep removes only what has expired
+			ttl, rounds, longLife = 80*time.Millisecond, 2, true
+			mode = rapid.SampledFrom([]string{"delete-reput", "get-reput"}).Draw(t, "long-mode")
+		}
 		c := cache.NewLRUCache(capacity, ttl)
-		for round := 0; round < 6; round++ {
+		for round := 0; round < rounds; round++ {
 			n := rapid.IntRange(257, capacity).Draw(t, "fill")
 			for i := 0; i < n; i++ {
 				c.Put(fmt.Sprintf("r%d-k%d", round, i), i)
 			}
-			time.Sleep(2 * ttl)
+			if longLife {
+				time.Sleep(ttl + 8*time.Millisecond)
+			} else {
+				time.Sleep(2 * ttl)
+			}
 			var wg sync.WaitGroup
 			var mu sync.Mutex
 			bad := ""
@@ -796,6 +807,19 @@ func TestC11_SweepContention(t *testing.T) {
 			start := make(chan struct{})
 			wg.Add(1)
 			go func() { defer wg.Done(); <-start; c.CleanupExpired() }()
+			if longLife {
+				for sw := 0; sw < 2; sw++ { // more sweeps while entries are being stored again
+					wg.Add(1)
+					go func() {
+						defer wg.Done()
+						<-start
+						for i := 0; i < 25; i++ {
+							c.CleanupExpired()
+							runtime.Gosched()
+						}
+					}()
+				}
+			}
 			for w := 0; w < 3; w++ {
 				wg.Add(1)
 				go func(w int) {
@@ -841,9 +865,32 @@ func TestC11_SweepContention(t *testing.T) {
 					}
 				}
 			}()
+			began := time.Now()
 			close(start)
 			if !waitOrHang(&wg, 120*time.Second) {
 				t.Fatalf("sweep with concurrent %s did not finish within 120 s (deadlock)\n%s", mode, dumpStacks())
+			}
+			if longLife && bad == "" {
+				// every key was stored again after the round began (the last operation on each key is a Put),
+				// nothing was cleared, n <= capacity: while less than half a lifetime has passed, all are present
+				missing, first := 0, ""
+				for i := 0; i < n; i++ {
+					k := fmt.Sprintf("r%d-k%d", round, i)
+					if v, ok := c.Get(k); !ok || v != -i {
+						if missing == 0 {
+							first = fmt.Sprintf("%q -> (%v, %v)", k, v, ok)
+						}
+						missing++
+					}
+				}
+				if el := time.Since(began); el < ttl/2 {
+					if missing > 0 {
+						bad = fmt.Sprintf("%d of %d keys stored again during the sweeps (at most %v ago, lifetime %v) are gone or hold another value, e.g. %s: a sweep removes only expired entries", missing, n, el, ttl, first)
+					}
+					rec.Label("sweep-fresh-entries-checked")
+				} else {
+					rec.Label("sweep-fresh-entries-too-slow-to-judge")
+				}
 			}
 			if bad == "" {
 				if sz, ks, st := c.Size(), c.Keys(), c.Stats(); sz != len(ks) || st.Size != sz || sz < 0 || sz > capacity {
